@@ -811,6 +811,10 @@ def run(tier, seed):
         other[k] = other.get(k, 0) + n
     design += ih["design"]
 
+    # ---- 6. the offline path: every case of BundleGate.tla on the real InstallFromBundle / InstallProcessorBundle
+    bg = bundle_gate(verdict, root)
+    design.append(bg.pop("design"))
+
     rc = verdict.finish()
 
     # ---- evidence
@@ -887,6 +891,7 @@ def run(tier, seed):
                                "rollbacks_refused_only_by_a_freshness_recorded_mark": ih["fresh_guarded_rollbacks"],
                                "freshness_signature_over_unverified_content_refused": ih["fresh_newcontent_refused"],
                                "events_validated": ih["events"], "trace_states": ih["trace_states"], "wall_s": ih["wall_s"]},
+           "offline_bundle_path": bg,
            "violations_of_other_properties_seen": other,
            "known_findings_seen": dict(verdict.known)}
     vlib.write_evidence(PROP, tier, seed, "model_checking", cov, time.time() - t0, len(verdict.violations), ASSUMPTIONS)
@@ -904,16 +909,95 @@ ASSUMPTIONS = [
     "the explicit confirmation of the context (env var when not interactive, typed confirmation when interactive)",
     "an interruption is a SIGKILL of the installing process before one of its file-system syscalls (strace inject); "
     "power loss / page-cache loss is not modelled",
-    "the offline bundle path (InstallFromBundle) and a processor module that passes WASM validation are not exercised",
+    "the offline bundle path (InstallFromBundle / InstallProcessorBundle) is exercised up to its last gate: a valid "
+    "publisher signature cannot be produced in the sandbox, so every bundle within reach must be refused and leave "
+    "nothing in the install directory (BundleGate.tla); a processor module that passes WASM validation is not exercised",
     "index histories: offers reach one installation one after the other (concurrent offers are the concurrency family, "
     "root-signed only); contents are three fixed content subtrees, timestamps are now / now-30d, versions 1..3; the "
     "per-history state files live on a tmpfs when /dev/shm is writable (durability is the interruption family's subject)",
 ]
 
 
+# ---------------------------------------------------------------------------------- the offline bundle path
+BG_CLASS = [("registry.bundle_stale", "stale"), ("registry.corrupt", "corrupt"), ("registry.unsigned", "signature"), ("registry.index", "index"),
+            ("trust_anchor", "index"), ("trust.", "signature"), ("registry.signature", "signature"),
+            ("registry.verification", "signature"), ("provenance", "signature")]
+
+
+def bg_class(code):
+    for pre, cls in BG_CLASS:
+        if pre in code:
+            return cls
+    return "?" + code
+
+
+def bundle_gate(verdict, root):
+    cfg_text = "SPECIFICATION Spec\nCONSTANTS Emit = TRUE\nINVARIANTS EmitCases NothingWithinReachInstalls\nCHECK_DEADLOCK FALSE\n"
+    r = vlib.tlc_design("BundleGate", cfg_text, [vlib.SPEC + "/kernels/BundleGate.tla"], name="BundleGate", workers=1, timeout=300)
+    cases = []
+    for line in r["out"].splitlines():
+        if "CASE " in line:
+            c = vlib.tlc_printed(line, "CASE")
+            if c:
+                cases.append(c)
+    if len(cases) < 100:
+        raise vlib.Infra("BundleGate export produced %d cases" % len(cases))
+    per = 24
+    scs = [{"id": "bundlegate-%03d" % (k // per), "root": root, "cases": [c["c"] for c in cases[k:k + per]]}
+           for k in range(0, len(cases), per)]
+    traces = vlib.run_harness("bundlegate", scs, name="bundlegate", timeout=1500)
+    stats = {"cases": len(cases), "refused_at": {}, "installed": 0, "gate_mismatches": 0, "mismatch_examples": []}
+    for sc0, tr, k0 in zip(scs, traces, range(0, len(cases), per)):
+        bad = [e for e in tr if e["ev"] in ("HarnessError", "ChildTimeout", "Panic")]
+        if bad:
+            raise vlib.Infra("bundlegate driver: %s" % json.dumps(bad[0])[:600])
+        rets = {e["i"]: e for e in tr if e["ev"] == "BundleRet"}
+        for j, c in enumerate(cases[k0:k0 + per]):
+            e = rets.get(j)
+            if e is None:
+                raise vlib.Infra("bundlegate driver: no result for case %d of %s" % (j, sc0["id"]))
+            cls = "installed" if e["ok"] else bg_class(e["code"])
+            stats["refused_at"][cls] = stats["refused_at"].get(cls, 0) + 1
+            leaked = [f for f in e["files"] if not f.endswith(".tmp")]
+            if e["ok"] or e["result"] or leaked:
+                stats["installed"] += 1
+                rec = {"invariant": "InstalledOnlyIfChecked", "engine": "", "features": ["offline-bundle", "gate:" + c["gate"], c["c"]["kind"]],
+                       "what": {"case": c["c"], "expected_first_failing_gate": c["gate"], "returned_ok": e["ok"], "code": e["code"],
+                                "files_in_install_dir": e["files"][:12]}}
+                verdict.add(rec, lambda rec=rec, c=c, e=e: vlib.write_replay(PROP, "bundlegate-%s" % abs(hash(json.dumps(c["c"], sort_keys=True))),
+                                                                            {"mode": "bundlegate", "case": c["c"]}, [e], rec))
+            elif cls != c["gate"]:
+                # which gate speaks first is conformance to BundleGate.tla, not a statement of C19: reported, not alarmed
+                stats["gate_mismatches"] += 1
+                if len(stats["mismatch_examples"]) < 5:
+                    stats["mismatch_examples"].append({"case": c["c"], "expected": c["gate"], "code": e["code"]})
+    if stats["gate_mismatches"]:
+        print("NOTE spec-deviation outside the verdict (BundleGate.tla, which gate refuses first): %d case(s), e.g. %s" %
+              (stats["gate_mismatches"], json.dumps(stats["mismatch_examples"][:2])[:600]))
+    if len([k for k in stats["refused_at"] if not k.startswith("?")]) < 4 and not verdict.violations:
+        raise vlib.Infra("vacuous bundle-gate run: %s" % stats)
+    stats["design"] = {"name": "BundleGate (offline bundle gates, %d cases exported)" % len(cases), "states": r["states"],
+                       "distinct": r["distinct"], "wall_s": round(r["wall_s"], 1)}
+    vlib.log("bundle gate: %s" % {k: stats[k] for k in ("cases", "refused_at", "installed", "gate_mismatches")})
+    return stats
+
+
+def bg_replay(doc, path):
+    vlib.build_harness()
+    tr = vlib.run_harness("bundlegate", [{"id": "replay", "root": vlib.scratch(), "cases": [doc["scenario"]["case"]]}], name="replay")[0]
+    e = [x for x in tr if x["ev"] == "BundleRet"]
+    print("re-executed:", json.dumps(e)[:1200])
+    if e and (e[0]["ok"] or e[0]["result"] or e[0]["files"]):
+        print("VIOLATION property=%s replay=%s" % (PROP, path))
+        return 1
+    return 0
+
+
 # ---------------------------------------------------------------------------------- replay
 def replay(path):
     doc = json.load(open(path))
+    if doc["scenario"].get("mode") == "bundlegate":
+        return bg_replay(doc, path)
     if doc["scenario"].get("mode") == "idxhist":
         return ih_replay(doc, path)
     s = dict(doc["scenario"])
